@@ -29,6 +29,8 @@ static const char* names[] = {
     "growing map, 16-bucket head holding 15 keys: emplace(a),emplace(b) || emplace(c),emplace(a)",
     "growing map: operator[](a) || operator[](a) || contains(a)",
     "fixed16: insert(a) || emplace(a) || contains(a) (equal tags, neighbouring key b present)",
+    "fixed32/64, the home group of the key is full (second / last probe group): emplace(a) || find(a)",
+    "fixed16, group wraps the table end: emplace(a),find(a) || emplace(a),find(a) (each thread looks its own insertion up)",
 };
 int harness_configs() { return sizeof(names) / sizeof(names[0]); }
 const char* harness_config_name(int c) { return names[c]; }
@@ -111,6 +113,32 @@ void harness_main(int cfg) {
       for (auto& x : ts) x.join();
       check_key(1, {&r[0]}, {&r[1], &r[2]}, true);
       do_find(t, 1, r[3]); bbmc::check(r[3].hit, "key inserted into a wrapped group cannot be found afterwards");
+      break;
+    }
+    case 8: {
+      size_t buckets = bbmc::choose(2) == 0 ? 32 : 64;
+      Fixed t(buckets); scope_values(t);
+      // 16 (or 32) keys fill the first (and second) group(s) on the probe path of key 1, which therefore lives in the last group of its path
+      int fill = buckets == 32 ? 16 : 32;
+      for (int k = 0; k < fill; k++) { set_hash(20 + k, 0, 0x10 + (size_t)k % 0x60); bbmc::require(t.emplace(20 + k, (20 + k) * 3).second, "prefill"); }
+      set_hash(1, 0, 0x7e);
+      ts.emplace_back([&] { do_emplace(t, 1, r[0]); });
+      ts.emplace_back([&] { do_find(t, 1, r[1]); });
+      for (auto& x : ts) x.join();
+      check_key(1, {&r[0]}, {&r[1]}, true);
+      do_find(t, 1, r[2]); bbmc::check(r[2].hit, "a key stored beyond its first probe group cannot be found");
+      bbmc::check(t.contains(1) && t.count(1) == 1, "contains/count miss a key stored beyond its first probe group");
+      for (int k = 0; k < fill; k++) { bbmc::step(); bbmc::check(t.contains(20 + k), "a prefilled key disappeared"); }   // step(): a read-only loop over one group would look like a poll
+      break;
+    }
+    case 9: {
+      Fixed t(16); scope_values(t);
+      set_hash(1, 12, 0x33);
+      for (int k = 40; k < 44; k++) { set_hash(k, 12, 0x40 + (k - 40)); bbmc::require(t.emplace(k, k * 3).second, "prefill"); }
+      ts.emplace_back([&] { do_emplace(t, 1, r[0]); do_find(t, 1, r[2]); });
+      ts.emplace_back([&] { do_emplace(t, 1, r[1]); do_find(t, 1, r[3]); });
+      for (auto& x : ts) x.join();
+      check_key(1, {&r[0], &r[1]}, {&r[2], &r[3]}, true);
       break;
     }
     case 4: case 5: {
